@@ -1,5 +1,8 @@
 use rig::report::Tier;
 
+#[global_allocator]
+static ALLOC: rig::alloc::Counting = rig::alloc::Counting;
+
 struct StderrLog;
 impl log::Log for StderrLog {
     fn enabled(&self, m: &log::Metadata) -> bool {
@@ -60,6 +63,8 @@ fn main() {
         "C06" => rig::props::c06::main(tier, replay),
         "C07" => rig::props::c07::main(tier, replay),
         "debug-rich" => rig::props::c07::debug_rich(),
+        "C09" => rig::props::c09::main(tier, replay),
+        "C10" => rig::props::c10::main(tier, replay),
         "selftest" => rig::props::c03::selftest(),
         _ => {
             eprintln!("unknown property {}", prop);
